@@ -1115,6 +1115,26 @@ def extract_initial_value_rule(repo):
     return tests[0]
 
 
+def extract_together_state_calls(repo):
+    """BaseEvolutionOperations.change_meta_unique_together / change_meta_index_together: the calls with which an entry
+    that goes away is dropped and an entry that arrives is created - every drop also takes the index out of the
+    tracked DatabaseState (directly, or through drop_index_by_name which does), every creation puts it in (directly,
+    or through create_unique_index / create_index which do).  Returns "<function>: <calls in source order>"."""
+    tree = ast.parse(_src(repo, 'django_evolution/db/common.py'))
+    cls = _find_class(tree, 'BaseEvolutionOperations')
+    names = ('drop_index_by_name', 'get_drop_index_sql', 'get_drop_unique_constraint_sql', 'remove_index', 'add_index',
+             'create_unique_index', 'create_index', 'get_new_index_name', 'get_default_index_together_name')
+    out = []
+    for fname in ('change_meta_unique_together', 'change_meta_index_together', 'drop_index_by_name'):
+        fn = _find_func(cls, fname)
+        calls = []
+        for n in ast.walk(fn):
+            if isinstance(n, ast.Call) and isinstance(n.func, ast.Attribute) and n.func.attr in names:
+                calls.append((n.lineno, n.col_offset, n.func.attr))
+        out.append('%s: %s' % (fname, ', '.join(c[2] for c in sorted(calls))))
+    return out
+
+
 def extract_found_reset_per_label(repo):
     """get_app_mutations: the flag that says "an SQL file was found for this label" is set to False INSIDE the loop
     over the labels (once per label), so that a label without an SQL file falls back to its Python module whatever
@@ -1398,6 +1418,10 @@ def regenerate(repo, outdir):
     flags['found_reset_per_label'] = frl
     parts.append('/-- get_app_mutations forgets, for every label, whether an earlier label was shipped as an SQL file -/')
     parts.append('def foundResetPerLabel : Bool := ' + ('true' if frl else 'false'))
+    tsc = extract_together_state_calls(repo)
+    flags['together_state_calls'] = tsc
+    parts.append('/-- how unique_together / index_together changes drop and create their indexes (calls in source order) -/')
+    parts.append('def togetherStateCalls : List String := ' + lean_list(lean_str(x) for x in tsc))
     pqb = extract_purge_queue_body(repo)
     flags['purge_queue_body'] = pqb
     parts.append('/-- Evolver.queue_purge_old_apps -/')
